@@ -34,6 +34,8 @@ def build(desc):
                                                            delete the decoy, add x   (stale caches, index re-use)
       {"phase_order": "comp_first" | "redefine"}           component phases before the system phases / system
                                                            phases defined twice with different names
+      {"presolve_rename": {"x": name}}                     x is built under another name, the system is solved once, then x gets
+                                                           its name through change_comp() (stale names in caches of analyses)
       {"retouch": {"x": name}}                             a component without phase configuration gets a decoy one and is
                                                            then replaced by itself (same name): change_comp() resets it
       {"dupbridge": {"child": mux, "slot": k, "rail": r}}  the PMux lists input k by its rail name r followed by a temporary
@@ -50,11 +52,13 @@ def build(desc):
     bridge = plan.get("bridge")
     retouch = plan.get("retouch")
     dup = plan.get("dupbridge")
+    pre = plan.get("presolve_rename")
+    alias = {pre["x"]: "__pre_" + pre["x"]} if pre else {}
     sys = None
 
     def add(c):
         nonlocal sys
-        comp = mk_comp(c)
+        comp = mk_comp(dict(c, name=alias[c["name"]])) if c["name"] in alias else mk_comp(c)
         kw = {}
         if c.get("group", ""):
             kw["group"] = c["group"]
@@ -65,7 +69,7 @@ def build(desc):
         elif c["kind"] == "source":
             sys.add_source(comp, **kw)
         else:
-            par = list(c["parents"])
+            par = [alias.get(q, q) for q in c["parents"]]
             if bridge and bridge["child"] == c["name"]:
                 sys.add_comp(par[bridge["slot"]], comp=PSwitch("__bridge"))
                 par[bridge["slot"]] = "__bridge"
@@ -80,7 +84,7 @@ def build(desc):
 
     def comp_phases(cs):
         for c in cs:
-            if c.get("pconf") is not None:
+            if c.get("pconf") is not None and c["name"] not in alias:
                 sys.set_comp_phases(c["name"], copy.deepcopy(c["pconf"]))
 
     with warnings.catch_warnings():
@@ -109,6 +113,19 @@ def build(desc):
             sys.del_comp("__bridge", del_childs=False)
         if dup:
             sys.del_comp("__dup", del_childs=False)
+        if pre:
+            # the component was built under another name; everything is solved once (every cache an analysis keeps is filled)
+            # and only then it gets its final name through change_comp() - names cached by an analysis must not survive that
+            c = [c for c in comps if c["name"] == pre["x"]][0]
+            quiet_call(sys.solve)
+            kw = {}
+            if c.get("group", ""):
+                kw["group"] = c["group"]
+            if c.get("rail", ""):
+                kw["rail"] = c["rail"]
+            sys.change_comp(alias[c["name"]], comp=mk_comp(c), **kw)
+            if c.get("pconf") is not None:
+                sys.set_comp_phases(c["name"], copy.deepcopy(c["pconf"]))
         if retouch:
             # a component WITHOUT phase configuration is given a decoy configuration and then replaced by an identical
             # component of the same name: change_comp() resets the phase configuration, so the decoy must leave no trace
